@@ -138,7 +138,9 @@ def run(run, h):
         ready = h.call("inactive_activate", inactive, token, M.cconfig)[1]
         chans.append({"ci": ci, "ready": ready, "n": 0, "plan": plan if plan is not None else [cb, -3]})
     npay = (5 if run.tier == "quick" else 12) * nch      # at least ten payments in one process: state kept across calls shows late
-    for pi in range(npay):
+    done, attempts = 0, 0
+    while done < npay and attempts < 3 * npay:      # npay COMPLETED payments (a refused amount does not count)
+        attempts += 1
         ch = rng.choice(chans)
         ci = ch["ci"]
         label = "ch%d pay%d" % (ci, ch["n"])
@@ -166,6 +168,8 @@ def run(run, h):
         view.merchant_msg(label + " pay token", "Sig", cp[1])
         ch["ready"] = h.call("locked_unlock", locked, cp[1], M.cconfig)[1]
         ch["n"] += 1
+        done += 1
+    run.count("completed payments in the process: %d" % done)
 
 
 def terminal_close(run, h, rng, view, M, stage, hexs, label):
